@@ -29,7 +29,7 @@ claimed = {
              ref="6/C13", note=NOTE + "sign_tx, write_tx_file and cleanExit are stubs under the engine (native replays use the real ones and read the written file back). The ECDSA / Schnorr signers are stubs under the engine (arbitrary r, s); multisig signing, -raw file handling and -batch are not covered. "),
  "C04": dict(text="Bounded model checking of block connection (commitTxs via ProcessBlockTransactions, with the context-free CheckTransaction rules in front as in PostCheckBlock) for a block of coinbase + 1..2 transactions (inputs may name the pre-state, the block's own coinbase and every transaction of the block: only an earlier one is spendable) "
                   "over a symbolic UTXO pre-state satisfying the representation invariant, arbitrary script verdicts, values compared as mathematical integers (Int mode): every input exists and is unspent, "
-                  "no double spend, no spend of the block's own coinbase, coinbase maturity, money range of every output and total, inputs cover outputs, coinbase claim <= subsidy + fees; subsidy schedule for every height; BIP68 height locks (open known finding); legacy / P2SH / witness signature-operation counters equal Core's for every short script (open known finding behind OP_RETURN) and the 80000 cost limit with arbitrary counters.",
+                  "no double spend, no spend of the block's own coinbase, coinbase maturity, money range of every output and total, inputs cover outputs, coinbase claim <= subsidy + fees; subsidy schedule for every height; BIP68 height locks (open known finding); legacy / P2SH / witness signature-operation counters equal Core's for every short script (open known finding behind OP_RETURN) and the 80000 cost limit with arbitrary counters; the change set produced for the UTXO database (deletion masks, undo records, added records) equals what the block spends and creates.",
              ref="6/C04", note=NOTE + "Outside: BIP68 time-based locks, blocks larger than the bound, the UTXO database commit itself. "),
  "C05": dict(text="Bounded model checking of header/structure rules, each against a transcription of Bitcoin Core's rule: median-time-past over 1..11 ancestors, PreCheckBlock acceptance (PoW verdict, required bits, "
                   "time-too-old / time-too-new with a symbolic clock, signed version gating, height/MTP bookkeeping), unknown-parent handling, verification-flag schedule, BIP34 height prefix for every uint32, "
